@@ -13,10 +13,10 @@ import (
 func init() {
 	register(&PropRules{
 		ID:      "C06",
-		Explain: "Guard structure of the web API decided on every CFG path of every registered handler (handlers are discovered from the webHandler{…,H} literals): (C06.1) Store.Add/Remove/SetAdmin/List/ListFull are called only under sessions.Check(request.Session) status==200 ∧ isAdmin; (C06.2) Store.Update(T,·) only under status==200 ∧ (isAdmin ∨ session user == T) with Session≠\"\" ∧ OldPassword==\"\", or under Store.Authenticate(T, OldPassword) ok ∧ err==nil with Session==\"\" ∧ OldPassword≠\"\"; (C06.3) sessions.Generate(U,A) only under Store.Authenticate(U,·) ok ∧ err==nil with A the store-reported flag; (C06.4) every status-200 response is under the handler's gate and, for mutating handlers, under the store call's err==nil; list payloads come only from Store.List/ListFull; (C06.5) every request field handed to sessions.Check or the Store is known non-empty and is read from a request struct whose json Decode returned nil (a malformed body is refused, not processed with the fields decoded before the error); (C06.6) the Store mutators are called only from gated handlers and CLI actions, never from functions reachable from the SASL/LDAP/basic-auth/authenticate roots. (C06.7) on every path into cipher.AEAD.Open the nonce length equals NonceSize(); (C06.8) the session window rule of C07.4 (a token is accepted only with 0 <= age <= lifetime), evaluated on splitCheckToken or, when that function has been dissolved into inline helpers, on Check with the opened plaintext; (C06.9) the key rule of C07.1 (\"issued by this agent instance\", \"only in response to a successful password authentication\" need a key nobody else can know): on every path into aes.NewCipher the key operand is a fresh buffer of that call, completely filled by crypto/rand with the error checked — that very buffer, not a copy of it —, written by nothing else before the cipher has its copy and used for nothing else.",
+		Explain: "Guard structure of the web API decided on every CFG path of every registered handler (handlers are discovered from the webHandler{…,H} literals): (C06.1) Store.Add/Remove/SetAdmin/List/ListFull are called only under sessions.Check(request.Session) status==200 ∧ isAdmin; (C06.2) Store.Update(T,·) only under status==200 ∧ (isAdmin ∨ session user == T) with Session≠\"\" ∧ OldPassword==\"\", or under Store.Authenticate(T, OldPassword) ok ∧ err==nil with Session==\"\" ∧ OldPassword≠\"\"; (C06.3) sessions.Generate(U,A) only under Store.Authenticate(U,·) ok ∧ err==nil with A the store-reported flag; (C06.4) every status-200 response is under the handler's gate and, for mutating handlers, under the store call's err==nil; list payloads come only from Store.List/ListFull; (C06.5) every request field handed to sessions.Check or the Store is known non-empty and is read from a request struct whose json Decode returned nil (a malformed body is refused, not processed with the fields decoded before the error); (C06.6) the Store mutators are called only from gated handlers and CLI actions, never from functions reachable from the SASL/LDAP/basic-auth/authenticate roots. (C06.7) on every path into cipher.AEAD.Open the nonce length equals NonceSize(); (C06.8) the session window rule of C07.4 (a token is accepted only with 0 <= age <= lifetime), evaluated on splitCheckToken or, when that function has been dissolved into inline helpers, on Check with the opened plaintext; (C06.9) the key rule of C07.1 (\"issued by this agent instance\", \"only in response to a successful password authentication\" need a key nobody else can know): on every path into aes.NewCipher the key operand is a fresh buffer of that call, completely filled by crypto/rand with the error checked — that very buffer, not a copy of it —, written by nothing else before the cipher has its copy and used for nothing else. (C06.10, rule instance shared with C04.1) \"current admin status\": the dispatcher's s.authenticate calls Dir.Authenticate on s.dir with the request's own credentials on every path and returns results 0..4 of that call — no admin flag remembered from an earlier request.",
 		Undec:   []string{"sessions.Check itself (C07)", "JSON decoding ambiguities (duplicate keys, case-insensitive field match) inside encoding/json", "byte-for-byte equality of the store at run time (follows from 'no mutator call' + C15)", "closure under request sequences"},
 		Run:     runC06,
-		Floors:  map[string]int{"C06.1": 5, "C06.2": 1, "C06.3": 1, "C06.4": 8, "C06.5": 8, "C06.6": 5, "C06.9": 2},
+		Floors:  map[string]int{"C06.1": 5, "C06.2": 1, "C06.3": 1, "C06.4": 8, "C06.5": 8, "C06.6": 5, "C06.9": 2, "C06.10": 2},
 	})
 }
 
